@@ -69,7 +69,7 @@ def required_counters(tier):
          'judged:skipped-warning': 100 * k, 'judged:skipped-solo': 100 * k, 'judged:skipped-rows': 100 * k,
          'judged:notation:box': 50 * k, 'judged:notation:rotbox': 50 * k, 'judged:notation:rectangle': 50 * k,
          'judged:notation:rotrectangle': 50 * k, 'judged:notation-file': 30 * k, 'judged:padded-row': 300 * k,
-         'judged:excluded-row': 300 * k}
+         'judged:excluded-row': 300 * k, 'judged:table-unchanged': 300 * k, 'judged:second-parse-equal': 100 * k}
     for c in REPRESENTABLE:
         d['rows:' + c] = 200 * k
     return d
@@ -410,11 +410,34 @@ def serialize(regs, api):
     return t, list(w)
 
 
+_PARSE_EVENTS = []       # (kind, message) recorded by parse(); judged at the end of the case
+_NPARSE = [0]
+
+
+def _table_fp(table):
+    from vmon.checks.c13 import rfp
+    return rfp(table)
+
+
 def parse(table):
+    """Parse an in-memory table; the table is an input and must come out bit-identical, and parsing it a second
+    time must give equal regions (the reader must not edit the caller's table)."""
     from regions import Regions
     with warnings.catch_warnings():
         warnings.simplefilter('ignore')
-        return list(Regions.parse(table, format='fits'))
+        before = _table_fp(table)
+        out = list(Regions.parse(table, format='fits'))
+        if _table_fp(table) != before:
+            _PARSE_EVENTS.append(('fits-parse-mutates-input-table', 'Regions.parse(table, format="fits") changed the table it was given'))
+        else:
+            _PARSE_EVENTS.append(('ok', 'table-unchanged'))
+        _NPARSE[0] += 1
+        if _NPARSE[0] % 3 == 0:
+            again = list(Regions.parse(table, format='fits'))
+            same = len(again) == len(out) and all(S.fingerprint(a) == S.fingerprint(b) for a, b in zip(again, out))
+            _PARSE_EVENTS.append(('ok', 'second-parse-equal') if same else
+                                 ('fits-second-parse-differs', 'parsing the same in-memory table a second time gives different regions'))
+        return out
 
 
 def parse_judged(table, exps, ctx, what):
@@ -589,6 +612,12 @@ def run_case(case, obs):
         else:
             run_roundtrip(case, obs)
     finally:
+        for kind, msg in _PARSE_EVENTS:
+            if kind == 'ok':
+                obs.ok(1, msg)
+            else:
+                obs.violation(kind, msg)
+        del _PARSE_EVENTS[:]
         if os.path.isdir(SCRATCH):
             for fn in os.listdir(SCRATCH):
                 _rm(os.path.join(SCRATCH, fn))
